@@ -57,6 +57,15 @@ func init() {
 			}
 			c08Scenario(r, base+i, "C17")
 		})
+		// hedged executions with overlapping attempts (the hedge scenarios of C09, judged here on statistics only)
+		nh := scale(r, 1500, 60000)
+		vk.Parallel(nh, 24, func(i int) {
+			if r.Skip(11000000 + i) {
+				return
+			}
+			c09Scenario(r, 11000000+i, "C17")
+		})
+		r.Rule += " Plus hedge scenarios with overlapping attempts: exactly one attempt has IsHedge()==false, the number with true equals the OnHedge events, counters inside attempts stay within their bounds and the done event satisfies Attempts == 1 + Hedges + Retries."
 		r.Rule += " Plus cancellation scenarios (context, deadline, Timeout, async Cancel landing in delays, waits, listeners and the function): the done event must satisfy Attempts == 1 + Retries + Hedges."
 	})
 }
